@@ -1567,6 +1567,56 @@ func vfPhaseHandler(r *core.Run, e *vfEnv, k *vfChecker, n int) {
 	wg.Wait()
 }
 
+// vfPhaseConcurrentPeers: one service, a listed and an unlisted peer send forwarded headers at the same time. Whatever
+// the middleware remembers between requests (peer look-ups, parsed lists) must never leak from one peer's request into
+// the other's; sequential phases cannot see that.
+func vfPhaseConcurrentPeers(r *core.Run, e *vfEnv, k *vfChecker, n int) {
+	rng := r.Stream("c09-concurrent-" + vfMode)
+	cfg := vfList("cidr4", "10.0.0.0/8")
+	peers := []struct{ addr, kind string }{{"10.1.2.3:41000", "inside"}, {"192.0.2.7:42000", "outside"}, {"10.200.0.9:43000", "inside"}, {"11.0.0.1:44000", "outside"}}
+	workers := 2 * len(peers)
+
+	var wg sync.WaitGroup
+
+	for w := 0; w < workers; w++ {
+		p := peers[w%len(peers)]
+		trust := vfTrust(cfg.TP, p.addr)
+		c := &vfCase{
+			Mode: vfMode, Transport: "handler", TrustedProxies: cfg.TP, RemoteAddr: p.addr, PeerKind: p.kind,
+			Base: vfGenBase(rng), Headers: vfGenHeaders(rng, 127, cfg, trust != "untrusted"), Trust: trust,
+		}
+		without := vfDoHandler(e, c, false)
+
+		if vfUpstreamTrouble(e, without) {
+			r.Count("proxy_upstream_trouble_skipped", 1)
+
+			continue
+		}
+
+		wg.Add(1)
+
+		go func() {
+			defer wg.Done()
+
+			for i := 0; i < n/workers; i++ {
+				cc := *c
+				with := vfDoHandler(e, &cc, true)
+
+				if vfUpstreamTrouble(e, with) {
+					r.Count("proxy_upstream_trouble_skipped", 1)
+
+					continue
+				}
+
+				r.Count("requests_of_listed_and_unlisted_peers_in_parallel", 1)
+				k.judge(&cc, without, with)
+			}
+		}()
+	}
+
+	wg.Wait()
+}
+
 func vfUpstreamTrouble(e *vfEnv, o *vfObs) bool {
 	return e.up != nil && o.Status == http.StatusBadGateway && len(o.Upstream) == 0
 }
@@ -1828,6 +1878,7 @@ func vfTestC09(t *testing.T) {
 
 	vfPhaseHandler(r, e, k, r.Pick(3600, 140000))
 	vfPhaseSocket(r, e, k, r.Pick(400, 10000))
+	vfPhaseConcurrentPeers(r, e, k, r.Pick(4000, 80000))
 	vfPhaseLinkLocal(r, e, k, r.Pick(10, 150))
 	vfProbeNonCanonical(r, e)
 
